@@ -165,3 +165,21 @@ MUTANTS += [
     dict(id="c03-struct-any-void", property="C03", edits=[(A, "                dtype = str(obj.dtype)\n", "                dtype = 'void'\n")]),
     dict(id="c03-loop-no-break", property="C03", edits=[(A, "                if in_dtypes:\n                    break\n", "")]),
 ]
+
+MUTANTS += [
+    # ---- C15
+    dict(id="c15-union-not-filtered", property="C15", edits=[(A, "            out = tuple(x for x in out if x is not _not_made)\n", "            out = tuple(out)\n")]),
+    dict(id="c15-intersection-outer", property="C15", edits=[(A, "            dtypes = tuple(x for x in dtypes if x in array_type.dtypes)\n", "            dtypes = tuple(dtypes)\n")]),
+    dict(id="c15-index-variadic-not-shifted", property="C15", edits=[(A, "index_variadic = array_type.index_variadic + len(dims)", "index_variadic = array_type.index_variadic")]),
+    dict(id="c15-typevar-bound-ignored", property="C15", edits=[(A, "                array_type = bound\n", "                array_type = Any\n")]),
+    dict(id="c15-scalar-any-axis", property="C15", edits=[(A, """        if dim is not _anonymous_variadic_dim and not isinstance(
+            dim, _NamedVariadicDim
+        ):
+            return False""", """        if dim is not _anonymous_variadic_dim and not isinstance(
+            dim, (_NamedVariadicDim, _NamedDim)
+        ):
+            return False""")]),
+    dict(id="c15-dims-appended-not-prepended", property="C15", edits=[(A, "        dims = dims + array_type.dims\n", "        dims = array_type.dims + dims\n")]),
+    dict(id="c15-inner-any-dtype-kept", property="C15", edits=[(A, "        if dtypes is _any_dtype:\n            dtypes = array_type.dtypes\n", "        if dtypes is _any_dtype:\n            pass\n")]),
+    dict(id="c15-scalar-alias-wrong", property="C15", edits=[("jaxtyping/__init__.py", 'return Shaped[jax.Array, ""]', 'return Shaped[jax.Array, "..."]')]),
+]
